@@ -21,49 +21,37 @@ Theorem project_is_group_image kind tol (S : list Rrot) N center v :
                r = ract ROps (rinv ROps s) (ract ROps f v)).
 Proof.
   cbv zeta. unfold project. destruct center as [c|]; [|left; reflexivity].
-  assert (Hnth : forall (l : list Rrot) k, In (nth k l (qone ROps, false)) l \/ nth k l (qone ROps, false) = (qone ROps, false)).
-  { intros l k. destruct (nth_in_or_default k l (qone ROps, false)); auto. }
-  assert (Hfirst : forall (l : list Rrot) k x, In x (firstn k l) -> In x l).
-  { intros l k x Hx. rewrite <- (firstn_skipn k l). apply in_or_app. left; exact Hx. }
-  assert (Hlast : In (last S (qone ROps, false)) S \/ last S (qone ROps, false) = (qone ROps, false)).
+  set (d := (qone ROps, false)).
+  assert (Hnth : forall (l : list Rrot) k, In (nth k l d) l \/ nth k l d = d).
+  { intros l k. destruct (nth_in_or_default k l d); auto. }
+  assert (Hsub : forall x, In x (sub_of kind S) -> In x S).
+  { intros x Hx. unfold sub_of in Hx.
+    assert (Hfirst : forall k, In x (firstn k S) -> In x S).
+    { intros k H. rewrite <- (firstn_skipn k S). apply in_or_app. left; exact H. }
+    destruct kind as [|[|[|[|k]]]]; try exact Hx; try (eapply Hfirst; exact Hx).
+    apply filter_In in Hx. exact (proj1 Hx). }
+  assert (Hlast : In (last S d) S \/ last S d = d).
   { destruct S as [|a S']; [right; reflexivity|]. left.
     assert (Hne : a :: S' <> []) by discriminate.
     destruct (exists_last Hne) as [l' [x Hx]]. rewrite Hx. rewrite last_last. apply in_or_app. right. left. reflexivity. }
-  destruct kind as [|[|[|k]]].
-  - (* plain *)
-    destruct (in_sector ROps tol N v); [left; reflexivity|].
-    right; left. eexists. split; [|reflexivity]. apply Hnth.
-  - (* last-element flip *)
-    set (f := last S (qone ROps, false)) in *.
+  assert (Hflip : forall f, flip_of kind S d = Some f -> In f S \/ f = d).
+  { intros f Hf. unfold flip_of in Hf.
+    destruct kind as [|[|[|[|k]]]]; try discriminate; inversion Hf; subst f; try exact Hlast; apply Hnth. }
+  assert (Hs : forall w, In (nth (argmax ROps (map (fun s => idR (vdot ROps w (ract ROps s c))) (sub_of kind S))) (sub_of kind S) d) S \/
+                         nth (argmax ROps (map (fun s => idR (vdot ROps w (ract ROps s c))) (sub_of kind S))) (sub_of kind S) d = d).
+  { intros w. destruct (Hnth (sub_of kind S) (argmax ROps (map (fun s => idR (vdot ROps w (ract ROps s c))) (sub_of kind S)))) as [H|H].
+    - left. apply Hsub. exact H.
+    - right. exact H. }
+  destruct (flip_of kind S d) as [f|] eqn:Ef.
+  - specialize (Hflip f eq_refl).
     destruct (o_ltb ROps (vz v) (o_ofZ ROps 0)).
     + destruct (in_sector ROps tol N (ract ROps f v)).
-      * right; right; left. exists f. split; [exact Hlast|reflexivity].
-      * right; right; right. eexists; exists f. split; [|split; [exact Hlast|reflexivity]].
-        destruct (Hnth (firstn 3 S) (argmax ROps (map (fun s => idR (vdot ROps (ract ROps f v) (ract ROps s c))) (firstn 3 S)))) as [H|H].
-        -- left. eapply Hfirst; exact H.
-        -- right; exact H.
+      * right; right; left. exists f. split; [exact Hflip|reflexivity].
+      * right; right; right. eexists; exists f. split; [apply Hs|split; [exact Hflip|reflexivity]].
     + destruct (in_sector ROps tol N v); [left; reflexivity|].
-      right; left. eexists. split; [|reflexivity].
-      destruct (Hnth (firstn 3 S) (argmax ROps (map (fun s => idR (vdot ROps v (ract ROps s c))) (firstn 3 S)))) as [H|H].
-      * left. eapply Hfirst; exact H.
-      * right; exact H.
-  - (* element-3 flip *)
-    set (f := nth 3 S (qone ROps, false)) in *.
-    destruct (o_ltb ROps (vz v) (o_ofZ ROps 0)).
-    + destruct (in_sector ROps tol N (ract ROps f v)).
-      * right; right; left. exists f. split; [apply Hnth|reflexivity].
-      * right; right; right. eexists; exists f. split; [|split; [apply Hnth|reflexivity]].
-        destruct (Hnth (firstn 3 S) (argmax ROps (map (fun s => idR (vdot ROps (ract ROps f v) (ract ROps s c))) (firstn 3 S)))) as [H|H].
-        -- left. eapply Hfirst; exact H.
-        -- right; exact H.
-    + destruct (in_sector ROps tol N v); [left; reflexivity|].
-      right; left. eexists. split; [|reflexivity].
-      destruct (Hnth (firstn 3 S) (argmax ROps (map (fun s => idR (vdot ROps v (ract ROps s c))) (firstn 3 S)))) as [H|H].
-      * left. eapply Hfirst; exact H.
-      * right; exact H.
-  - (* any other kind value behaves as plain *)
-    destruct (in_sector ROps tol N v); [left; reflexivity|].
-    right; left. eexists. split; [|reflexivity]. apply Hnth.
+      right; left. eexists. split; [apply Hs|reflexivity].
+  - destruct (in_sector ROps tol N v); [left; reflexivity|].
+    right; left. eexists. split; [apply Hs|reflexivity].
 Qed.
 
 (* (d) a direction already inside the closed sector is returned unchanged
@@ -72,7 +60,7 @@ Qed.
 Theorem project_fixes_inside tol (S : list Rrot) N center v :
   in_sector ROps tol N v = true -> project ROps idR 0 tol S N center v = v.
 Proof.
-  intros H. unfold project. destruct center; [|reflexivity]. rewrite H. reflexivity.
+  intros H. unfold project. destruct center; [|reflexivity]. cbn [flip_of sub_of]. rewrite H. reflexivity.
 Qed.
 
 Corollary project_idempotent_if_lands_inside tol (S : list Rrot) N center v :
